@@ -1,8 +1,21 @@
 (* C12 -- ignore patterns exclude consistently and only ever accumulate.  Statements only. *)
 From Coq Require Import Permutation.
-From MHL Require Import Model.Commands Gen.Generated Proofs.BaseFacts Proofs.IgnoreFacts Proofs.CommitFacts Proofs.TreeFacts Proofs.FreshFacts Proofs.ReloadFacts Proofs.NestedFacts.
+From MHL Require Import Model.Commands Gen.Generated Proofs.BaseFacts Proofs.IgnoreFacts Proofs.CommitFacts Proofs.TreeFacts Proofs.FreshFacts Proofs.ReloadFacts Proofs.NestedFacts Gen.GeneratedFns Proofs.SourceLookupFacts.
 
 (* ---- accumulation (ignore.py set_patterns) ---- *)
+(* THE TIE OF set_patterns TO THE SOURCE.  translator/gen.py requires the bodies of MHLIgnoreSpec.__init__, set_patterns,
+   _append_patterns_list, _append_patterns_from_file, get_pattern_list and get_path_spec to be exactly the recorded texts
+   (shape-locked) and emits, statement by statement, src_set_patterns / src_append_patterns_list (Gen/GeneratedFns.v;
+   list.extend over the generator expression becomes a fold that tests each line against the list as grown so far; the
+   pattern file is its lines, [] being a line that is only a line feed).  They are the model's functions: *)
+Theorem C12_source_set_patterns_is_the_models : forall existing new file,
+  src_set_patterns existing new file = set_patterns existing new (match file with Some lines => pattern_file_lines lines | None => [] end).
+Proof. exact src_set_patterns_is_model. Qed.
+Print Assumptions C12_source_set_patterns_is_the_models.
+Theorem C12_source_append_patterns_is_the_models : forall acc ps, src_append_patterns_list acc ps = append_patterns acc ps.
+Proof. exact src_append_patterns_list_is_model. Qed.
+Print Assumptions C12_source_append_patterns_is_the_models.
+
 Theorem C12_previous_patterns_first : forall existing cli file,
   NoDup existing -> exists s, set_patterns existing cli file = base_of existing ++ s.
 Proof. exact set_patterns_prefix. Qed.
